@@ -292,7 +292,7 @@ def classify_legacy(u, fn, ps, st, rt):
             cr = u.const_ref(r)
             lt = u.tenv.width(strip_cast_type(l))
             if fl and fl['kind'] == 'param' and cr:
-                return [{'g': 'range', 'op': c['opcode'], 'param': fl['index'], 'casts': fl['casts'],
+                return [{'g': 'range', 'op': c['opcode'], 'param': fl['index'], 'casts': fl['casts'], 'ptype': fl['ptype'],
                          'bound': cr, 'cmp_type': cmp_type(u, c)}]
             return None
         return None
@@ -431,6 +431,12 @@ def make_probe(u, macros):
         lines.append('  printf("SIZEOF %s %%zu\\n", sizeof(%s));' % (tn, tn))
         for f in fnames:
             lines.append('  printf("OFFSETOF %s %s %%zu\\n", offsetof(%s, %s));' % (tn, f, tn, f))
+    for rid, rec in u.records.items():
+        if rec.get('name') and rec['name'].startswith('avtp_') and rec['fields'] and rec.get('complete', True):
+            tag = rec['name']
+            lines.append('  printf("SIZEOF struct:%s %%zu\\n", sizeof(struct %s));' % (tag, tag))
+            for f in rec['fields']:
+                lines.append('  printf("OFFSETOF struct:%s %s %%zu\\n", offsetof(struct %s, %s));' % (tag, f[0], tag, f[0]))
     for m in macros:
         lines.append('#ifdef %s\n  printf("MACRO %s %%lld\\n", (long long)(%s));\n#endif' % (m, m, m))
     lines.append('  return 0; }')
@@ -547,7 +553,13 @@ def analyse_unit(path, macros, hl, workdir):
         elif any(f[0] == 'payload' for f in u.header_types[tn]['fields']) or tn.startswith('avtp_'):
             htypes[tn] = {'sizeof': probe['sizeof'].get(tn), 'offsetof': probe['offsetof'].get(tn, {}),
                           'len_macro': None, 'len_macro_value': None, 'header': None}
-    res = {'src': u.rel, 'tables': tables, 'funcs': funcs, 'types': htypes,
+    legacy_structs = {}
+    for rid, rec in u.records.items():
+        if rec.get('name') and rec['name'].startswith('avtp_') and rec['fields']:
+            k = 'struct:' + rec['name']
+            if k in probe['sizeof']:
+                legacy_structs[rec['name']] = {'sizeof': probe['sizeof'][k], 'members': [[f[0], probe['offsetof'].get(k, {}).get(f[0])] for f in rec['fields']]}
+    res = {'src': u.rel, 'tables': tables, 'funcs': funcs, 'types': htypes, 'legacy_structs': legacy_structs,
            'enum_values': probe['enum'], 'macro_values': probe['macro'], 'sizeof': probe['sizeof'],
            'offsetof': probe['offsetof']}
     if os.path.basename(path) == 'Utils.c':
